@@ -64,7 +64,7 @@ fn any_name(tag: &str, patch: bool, sub: bool) -> Vec<u8> {
     } else {
         n.push(b'd');
     }
-    n.extend_from_slice(&sym::any_bytes(tag, NAMEBYTES, 0, if patch { 1 } else { sym::bound(1, 2) }));
+    n.extend_from_slice(&sym::any_bytes(tag, NAMEBYTES, 0, 1));
     n
 }
 
@@ -123,15 +123,13 @@ fn canonical_text(rcs: &[u8], files: &[FileSpec]) -> Vec<u8> {
     t
 }
 
-/// In the quick tier the secondary dimensions are derived from the algorithm choice instead of
-/// being chosen independently (keeps the product of choices small); the thorough tier makes them
-/// independent.
+/// The secondary dimensions are derived from the algorithm choice instead of being chosen independently
+/// (keeps the product of choices small).
 fn dim(tag: &str, n: usize, derived: usize) -> usize {
-    if sym::bound(0, 1) == 1 {
-        sym::choose(tag, n)
-    } else {
-        derived % n
-    }
+    // (making them independent in the thorough tier multiplied the path count beyond 15 minutes on 16 cores;
+    // the thorough tier grows the number of distfiles, the RCS Id and the token / line counts instead)
+    let _ = tag;
+    derived % n
 }
 
 fn gen_files() -> Vec<FileSpec> {
@@ -268,7 +266,7 @@ pub fn h_lines() {
     let mut sums: Vec<Vec<(usize, Vec<u8>)>> = vec![Vec::new(), Vec::new(), Vec::new()];
     let mut sizes: Vec<Option<u64>> = vec![None, None, None];
     let mut text: Vec<u8> = Vec::new();
-    let nl = 1 + sym::choose("nlines", sym::bound(2, 3));
+    let nl = 1 + sym::choose("nlines", 2);
     // blank style between fields, once per text: single blank / doubled blanks with leading
     // blanks / tab+blank
     let style = sym::choose("ws", 3);
@@ -407,7 +405,8 @@ pub fn h_interleave() {
             text.extend_from_slice(b" bytes\n");
             sizes[w] = Some(1 + i as u64);
         } else {
-            let a = (i + w) % 6;
+            // two consecutive lines use the same algorithm: a file may carry the same algorithm twice (both recorded)
+            let a = (i / 2 + w) % 6;
             text.extend_from_slice(ALGS[a].as_bytes());
             text.extend_from_slice(b" (");
             text.extend_from_slice(names[w]);
